@@ -1354,11 +1354,11 @@ fn graph_case(case_seed: u64, r: &mut Report, exe: &std::path::Path) {
     // ---------------- pattern matching (fixed and variable-length edge patterns)
     let dense = spec.edges.len() > 2 * n;
     let triangle = has_triangle(rg);
-    pattern_queries(&mut cx, g, rg, &mut rng, 6, dense, false);
+    pattern_queries(&mut cx, g, rg, &mut rng, 4, dense, false);
     if n >= 3 && rng.chance(1, 4) {
         // same graph in an engine that scans start candidates in parallel (threshold 2 instead of 100)
         match build_in(&spec, GraphEngine::with_config(GraphEngineConfig::new().pattern_parallel_threshold(2))) {
-            Ok(bp) if bp.ids == *ids && bp.rg.edges.iter().map(|e| e.id).eq(rg.edges.iter().map(|e| e.id)) => pattern_queries(&mut cx, &bp.g, rg, &mut rng, 3, dense, true),
+            Ok(bp) if bp.ids == *ids && bp.rg.edges.iter().map(|e| e.id).eq(rg.edges.iter().map(|e| e.id)) => pattern_queries(&mut cx, &bp.g, rg, &mut rng, 2, dense, true),
             _ => cx.r.inconclusive("second engine (parallel pattern scan) could not be built identically"),
         }
     }
@@ -1597,11 +1597,13 @@ fn pattern_queries(cx: &mut Ctx, g: &GraphEngine, rg: &RG, rng: &mut Rng, querie
         let three = rng.chance(1, 4);
         let segs: Vec<SegSpec> = if three {
             let first_var = rng.bool();
-            vec![gen_seg(rng, true, first_var), gen_seg(rng, true, !first_var || rng.chance(1, 3))]
+            let second_var = !first_var || rng.chance(1, 3);
+            vec![gen_seg(rng, true, first_var), gen_seg(rng, true, second_var)]
         } else {
-            vec![gen_seg(rng, dense, rng.chance(4, 5))]
+            let variable = rng.chance(4, 5);
+            vec![gen_seg(rng, dense, variable)]
         };
-        let Some(want) = ref_matches(rg, &start, &segs, 20_000) else {
+        let Some(want) = ref_matches(rg, &start, &segs, 4_000) else {
             cx.r.count("match_reference_too_many", 1);
             continue;
         };
@@ -1692,7 +1694,8 @@ fn pattern_queries(cx: &mut Ctx, g: &GraphEngine, rg: &RG, rng: &mut Rng, querie
             let extra: Vec<&MKey> = got.difference(&want).take(3).collect();
             let missing: Vec<&MKey> = want.difference(&got).collect();
             let got_nodes: BTreeSet<Vec<&Vec<u64>>> = got.iter().map(|k| k.iter().map(|p| &p.0).collect()).collect();
-            let node_seq_missing: Vec<&&MKey> = missing.iter().filter(|k| !got_nodes.contains(&k.iter().map(|p| &p.0).collect::<Vec<_>>())).collect();
+            let node_seq_missing: Vec<&MKey> = missing.iter().copied().filter(|k| !got_nodes.contains(&k.iter().map(|p| &p.0).collect::<Vec<_>>())).collect();
+            let shown: Vec<&MKey> = if node_seq_missing.is_empty() { missing.iter().copied().take(3).collect() } else { node_seq_missing.iter().copied().take(3).collect() };
             let sig = if !extra.is_empty() {
                 "match_pattern:unexpected-match"
             } else if !node_seq_missing.is_empty() {
@@ -1707,7 +1710,7 @@ fn pattern_queries(cx: &mut Ctx, g: &GraphEngine, rg: &RG, rng: &mut Rng, querie
                     what,
                     got.len(),
                     want.len(),
-                    if node_seq_missing.is_empty() { missing.iter().take(3).collect::<Vec<_>>() } else { node_seq_missing.iter().take(3).map(|k| **k).collect::<Vec<_>>().iter().collect::<Vec<_>>() },
+                    shown,
                     if node_seq_missing.is_empty() { " — each missing path differs from a returned one only in which parallel edge it uses" } else { "" },
                     extra
                 ),
@@ -1906,7 +1909,7 @@ fn main() {
 
     let meta = Meta {
         property: "C18",
-        rule: "one case = one random multigraph (2-40 nodes; directed / undirected / mixed; self-loops, parallel and anti-parallel edges; weights missing / equal / zero-heavy / small ints / floats / 1e9-1e12; 1-3 edge types; optional disconnected clusters) built in a fresh engine and read back; all ordered pairs (<=8 nodes) or 28 sampled pairs get find_path, find_weighted_path, find_all_paths, find_all_weighted_paths and astar_path judged against BFS / Bellman-Ford / exhaustive enumeration over the read-back edge list; plus filtered find_path, traverse, neighbors, find_variable_paths (hop bounds, directions, type sets, filters, cycles) against exhaustive enumeration; 6 (+3 on a parallel-scan engine for a quarter of the graphs) random path patterns through match_pattern / match_simple (fixed and *min..max edge patterns, 2- and 3-node paths, three directions, edge type / property and node label / property filters) compared as sets of bound (node sequence, edge sequence) tuples with an exhaustive enumeration, plus count_pattern_matches / pattern_exists; SCC+condensation, weak components, k-core, triangles, clustering, articulation points, bridges, blocks, MST against brute-force references. Distinct by the hash of the generated graph; non-trivial if the graph has >=3 nodes, >=2 edges and a queried pair at reference distance >=2.",
+        rule: "one case = one random multigraph (2-40 nodes; directed / undirected / mixed; self-loops, parallel and anti-parallel edges; weights missing / equal / zero-heavy / small ints / floats / 1e9-1e12; 1-3 edge types; optional disconnected clusters) built in a fresh engine and read back; all ordered pairs (<=8 nodes) or 28 sampled pairs get find_path, find_weighted_path, find_all_paths, find_all_weighted_paths and astar_path judged against BFS / Bellman-Ford / exhaustive enumeration over the read-back edge list; plus filtered find_path, traverse, neighbors, find_variable_paths (hop bounds, directions, type sets, filters, cycles) against exhaustive enumeration; 4 (+2 on a parallel-scan engine for a quarter of the graphs) random path patterns through match_pattern / match_simple (fixed and *min..max edge patterns, 2- and 3-node paths, three directions, edge type / property and node label / property filters) compared as sets of bound (node sequence, edge sequence) tuples with an exhaustive enumeration, plus count_pattern_matches / pattern_exists; SCC+condensation, weak components, k-core, triangles, clustering, articulation points, bridges, blocks, MST against brute-force references. Distinct by the hash of the generated graph; non-trivial if the graph has >=3 nodes, >=2 edges and a queried pair at reference distance >=2.",
         assumptions: vec![
             "paths, traversals and SCC respect edge direction (an undirected edge is usable both ways); k-core, triangles, clustering, articulation points, bridges, blocks and MST are judged on the underlying simple undirected graph with the .undirected() switch where the config has one".into(),
             "node filters: only queries whose two endpoints satisfy the filter are judged, so that whether endpoints are exempt is not part of the verdict; traverse is only judged with edge-type / edge-property filters (whether a node filter prunes or only hides is not stated)".into(),
@@ -1917,7 +1920,7 @@ fn main() {
             "pattern matching: a variable-length segment is node-simple including its start node (the code's stated rule: skip visited nodes to prevent cycles), segments of one pattern do not share that rule, node patterns apply to named positions only; matches are compared as sets of bound tuples with an explicit limit of 1e6 (match_simple only when fewer than 900 matches are expected; truncated results are skipped), so neither duplicates nor limit handling are judged; parallel edges give different paths, as in find_variable_paths".into(),
         ],
         floors: vec![("graphs", 300), ("reachable_pairs", 2_000), ("pairs_at_distance_ge_2", 500), ("q_find_variable_paths", 300), ("q_scc", 300), ("graphs_with_parallel_edges", 50), ("graphs_with_undirected_edges", 50),
-            ("q_match_pattern", 2_000), ("q_match_var_maxhops_ge2", 600), ("q_match_three_node_patterns", 200), ("q_match_pattern_parallel_scan", 100), ("match_paths_checked", 20_000), ("graphs_with_triangles", 100)],
+            ("q_match_pattern", 1_500), ("q_match_var_maxhops_ge2", 500), ("q_match_three_node_patterns", 200), ("q_match_pattern_parallel_scan", 100), ("match_paths_checked", 20_000), ("graphs_with_triangles", 100)],
         exhaustive: false,
     };
     write_result(&args, &meta, &total, started);
